@@ -18,6 +18,9 @@ pub enum Step {
     Aa(Key),
     /// retract first visible match
     Rt(Key),
+    /// retract the n-th live clause (selected by its id, i.e. through the second argument):
+    /// the way to remove a clause from the middle of an index bucket
+    RtNth(u8),
     /// retractall
     Ra(Key),
     /// probe through a call / through clause/2
@@ -76,6 +79,7 @@ fn simple_step(mask: u8) -> BoxedStrategy<Step> {
         5 => clause_key_strategy(mask).prop_map(Step::Az),
         2 => clause_key_strategy(mask).prop_map(move |k| if aa { Step::Aa(k) } else { Step::Az(k) }),
         3 => key_strategy().prop_map(Step::Rt),
+        2 => any::<u8>().prop_map(Step::RtNth),
         1 => key_strategy().prop_map(Step::Ra),
         2 => key_strategy().prop_map(Step::Pr),
         1 => key_strategy().prop_map(Step::Prc),
@@ -145,6 +149,7 @@ fn render(steps: &[Step], ids: &mut Ids, out: &mut String) {
                 ids.next_clause += 1;
             }
             Step::Rt(k) => out.push_str(&format!("rt({})", key_text(k))),
+            Step::RtNth(n) => out.push_str(&format!("rtn({n})")),
             Step::Ra(k) => out.push_str(&format!("ra({})", key_text(k))),
             Step::Pr(k) => out.push_str(&format!("pr({})", key_text(k))),
             Step::Prc(k) => out.push_str(&format!("prc({})", key_text(k))),
@@ -193,6 +198,10 @@ struct Model {
     used_asserta: bool,
     /// a clause with an unbound key was asserted
     used_var_key: bool,
+    /// a clause was retracted while an earlier live clause had the same key
+    middle_retract: bool,
+    /// ... and a clause was asserted after that
+    assert_after_middle_retract: bool,
 }
 
 fn ids_list(v: &[u32]) -> T {
@@ -247,11 +256,33 @@ impl Model {
                     if k.is_none() {
                         self.used_var_key = true;
                     }
+                    if self.middle_retract {
+                        self.assert_after_middle_retract = true;
+                    }
                     if !self.open_snapshots.is_empty() {
                         self.assert_under_cursor = true;
                         for kd in &self.open_kinds {
                             self.kinds_mask |= 1 << (kd % 3);
                         }
+                    }
+                }
+                Step::RtNth(n) => {
+                    let live: Vec<u32> = self.db.iter().filter(|c| c.alive).map(|c| c.id).collect();
+                    if live.is_empty() {
+                        self.log.push(cmp("rt", vec![atom("none")]));
+                    } else {
+                        let id = live[(*n as usize * live.len()) >> 8];
+                        // is it in the middle of its index bucket (an earlier live clause has the same key)?
+                        let key = self.db.iter().find(|c| c.id == id).map(|c| c.key).unwrap();
+                        let pos = self.db.iter().position(|c| c.id == id).unwrap();
+                        let same = |c: &Cl| c.alive && c.key.is_some() && c.key == key;
+                        // not the first clause of its index bucket (with a successor the damage shows at
+                        // once, without one after the next assertz of that key)
+                        if self.db[..pos].iter().any(same) {
+                            self.middle_retract = true;
+                        }
+                        self.kill(id);
+                        self.log.push(cmp("rt", vec![int(id as i64)]));
                     }
                 }
                 Step::Rt(k) => match self.visible(k).first().cloned() {
@@ -290,7 +321,11 @@ impl Model {
                     let mut was_cut = false;
                     for (pos, id) in snapshot.iter().enumerate() {
                         if let Some(top) = self.open_snapshots.last_mut() {
-                            *top = snapshot[pos + 1..].to_vec();
+                            // clauses this cursor still depends on: the ones it has not delivered yet and,
+                            // for call / clause cursors, the one it currently stands on (a retract/1
+                            // cursor removes that one itself)
+                            let from = if *kind % 3 == 2 { pos + 1 } else { pos };
+                            *top = snapshot[from..].to_vec();
                         }
                         if *kind % 3 == 2 {
                             // retract/1 as a generator: a clause already removed by someone else is
@@ -341,12 +376,18 @@ impl Model {
         let clause_cursor = self.kinds_mask & 2 != 0;
         if self.used_var_key {
             "family-unbound-key".into()
+        } else if self.middle_retract {
+            "family-retract-from-middle-of-bucket".into()
         } else if clause_cursor {
             "family-clause2-cursor".into()
-        } else if self.retract_of_pending {
+        } else if self.retract_of_pending || self.retract_under_cursor {
+            // any retract while a cursor on the predicate is open (a retract/1 cursor's own removals
+            // included): pending or current clauses are lost, and even retracts of clauses no cursor
+            // depends on have been seen to make later calls loop
             "family-retract-of-pending-clause".into()
-        } else if self.used_asserta && (self.assert_under_cursor || self.retract_under_cursor) {
-            "family-asserta-with-open-cursor".into()
+        } else if self.used_asserta && (self.assert_under_cursor || self.retract_under_cursor || self.db.iter().any(|c| !c.alive)) {
+            // asserta combined with an open cursor or with any retract (a dead clause exists)
+            "family-asserta-with-open-cursor-or-retract".into()
         } else {
             format!("core-{}", self.ctx())
         }
@@ -426,7 +467,7 @@ pub fn check(env: &mut Env, steps: &Vec<Step>) -> Verdict {
     }
     let mut text = String::new();
     render(steps, &mut Ids { next_clause: 0, next_cursor: 0 }, &mut text);
-    let mut m = Model { db: vec![], log: vec![], ids: Ids { next_clause: 0, next_cursor: 0 }, ambiguous: false, assert_under_cursor: false, retract_under_cursor: false, retract_of_pending: false, open_snapshots: vec![], open_kinds: vec![], kinds_mask: 0, used_asserta: false, used_var_key: false };
+    let mut m = Model { db: vec![], log: vec![], ids: Ids { next_clause: 0, next_cursor: 0 }, ambiguous: false, assert_under_cursor: false, retract_under_cursor: false, retract_of_pending: false, open_snapshots: vec![], open_kinds: vec![], kinds_mask: 0, used_asserta: false, used_var_key: false, middle_retract: false, assert_after_middle_retract: false };
     m.run(steps);
     if m.ambiguous {
         return Verdict::Discard("retract-cursor-meets-already-retracted-clause".into());
@@ -516,7 +557,7 @@ impl Prop for C09 {
     }
     fn classify_stuck(&self, _kind: &str, case: &Value, base: &str) -> String {
         let Ok(steps) = serde_json::from_value::<Vec<Step>>(case.clone()) else { return base.to_string() };
-        let mut m = Model { db: vec![], log: vec![], ids: Ids { next_clause: 0, next_cursor: 0 }, ambiguous: false, assert_under_cursor: false, retract_under_cursor: false, retract_of_pending: false, open_snapshots: vec![], open_kinds: vec![], kinds_mask: 0, used_asserta: false, used_var_key: false };
+        let mut m = Model { db: vec![], log: vec![], ids: Ids { next_clause: 0, next_cursor: 0 }, ambiguous: false, assert_under_cursor: false, retract_under_cursor: false, retract_of_pending: false, open_snapshots: vec![], open_kinds: vec![], kinds_mask: 0, used_asserta: false, used_var_key: false, middle_retract: false, assert_after_middle_retract: false };
         m.run(&steps);
         m.sig(if base == "hang" { "hang" } else { "crash" })
     }
